@@ -107,6 +107,9 @@ func (s *serverEnc) Encode(it Item, i int) []byte {
 	case "hdr":
 		proto.ServerCodeData.Encode(&b)
 		s.block(&b, true, s.resultCols(i, 0), 0)
+	case "end":
+		proto.ServerCodeData.Encode(&b)
+		s.block(&b, true, nil, 0)
 	case "data":
 		proto.ServerCodeData.Encode(&b)
 		s.block(&b, true, s.resultCols(i, 2), 2)
